@@ -945,15 +945,20 @@ pub fn c14(tier: Tier) -> i32 {
 
 pub fn c24(tier: Tier) -> i32 {
     let rep = Report::new("C24", tier);
-    rep.rule("all sequences of 2 (quick) / up to 3 (thorough) statements from a dependent alphabet (CREATE (:A {uid:1}); MATCH (a:A) SET a.v = 1; MATCH (a:A) CREATE (a)-[:R]->(:B {uid:2}); MERGE (:A {uid:1}); MATCH (a:A) SET a.v = coalesce(a.v, 0) + 1; MATCH (a:A) DETACH DELETE a; MATCH (b:B) SET b.seen = 1) executed inside ONE ndb_begin_write..ndb_txn_commit, on an empty database and on a database that already holds the node; oracle: the graph after commit equals the graph after the same statements run as separate auto-commit statements; non-trivial = sequences in which a later statement reads what an earlier one wrote (the auto-commit result differs from running every statement against the initial state)");
-    let alphabet: Vec<(&str, &str)> = vec![
-        ("create_a", "CREATE (:A {uid: 1})"),
-        ("set_a", "MATCH (a:A) SET a.v = 1"),
-        ("create_rel", "MATCH (a:A) CREATE (a)-[:R]->(:B {uid: 2})"),
-        ("merge_a", "MERGE (:A {uid: 1})"),
-        ("incr_a", "MATCH (a:A) SET a.v = coalesce(a.v, 0) + 1"),
-        ("detach_delete_a", "MATCH (a:A) DETACH DELETE a"),
-        ("set_b", "MATCH (b:B) SET b.seen = 1"),
+    rep.rule("all sequences of 2 (thorough: up to 3) statements from a dependent 11-statement alphabet (create node a; set / increment a property of a; create b and a relationship from a; MERGE a; DETACH DELETE a; set a property of b; create the relationship between the existing a and b; DELETE b; DELETE the relationship; DELETE a), plus (quick) every triple over the relationship / delete sub-alphabet, executed inside ONE ndb_begin_write..ndb_txn_commit on four initial states (empty; a; a and b; a-[:R]->b); oracle: the graph after commit equals the graph after the same statements run as separate auto-commit statements; non-trivial = sequences in which a later statement reads what an earlier one wrote (the auto-commit result differs from running every statement against the initial state)");
+    // (name, text, what it READS through MATCH / MERGE, what it WRITES)
+    let alphabet: Vec<(&str, &str, &[&str], &[&str])> = vec![
+        ("create_a", "CREATE (:A {uid: 1})", &[], &["node_a"]),
+        ("set_a", "MATCH (a:A) SET a.v = 1", &["node_a", "del_node_a"], &["prop_a"]),
+        ("create_rel", "MATCH (a:A) CREATE (a)-[:R]->(:B {uid: 2})", &["node_a", "del_node_a"], &["node_b", "rel_ab"]),
+        ("merge_a", "MERGE (:A {uid: 1})", &["node_a", "del_node_a"], &["node_a"]),
+        ("incr_a", "MATCH (a:A) SET a.v = coalesce(a.v, 0) + 1", &["node_a", "del_node_a", "prop_a"], &["prop_a"]),
+        ("detach_delete_a", "MATCH (a:A) DETACH DELETE a", &["node_a", "del_node_a", "rel_ab_attached"], &["del_node_a", "del_rel_ab"]),
+        ("set_b", "MATCH (b:B) SET b.seen = 1", &["node_b", "del_node_b"], &["prop_b"]),
+        ("create_rel_ab", "MATCH (a:A), (b:B) CREATE (a)-[:R]->(b)", &["node_a", "node_b", "del_node_a", "del_node_b"], &["rel_ab"]),
+        ("delete_b", "MATCH (b:B) DELETE b", &["node_b", "del_node_b", "rel_ab_attached", "del_rel_ab_attached"], &["del_node_b"]),
+        ("delete_rel", "MATCH (:A)-[r:R]->(:B) DELETE r", &["rel_ab_match", "del_rel_ab_match", "node_a", "node_b"], &["del_rel_ab"]),
+        ("delete_a", "MATCH (a:A) DELETE a", &["node_a", "del_node_a", "rel_ab_attached", "del_rel_ab_attached"], &["del_node_a"]),
     ];
     let depth = tier.pick(2usize, 3);
     let mut seqs: Vec<Vec<usize>> = vec![];
@@ -962,7 +967,7 @@ pub fn c24(tier: Tier) -> i32 {
         let mut next = Vec::new();
         for s in &frontier {
             for i in 0..alphabet.len() {
-                // a second CREATE of uid 1 would make uids ambiguous; keep at most one create_a
+                // a second CREATE of uid 1 / uid 2 would make uids ambiguous; keep at most one of each
                 if (i == 0 && s.contains(&0)) || (i == 2 && s.contains(&2)) {
                     continue;
                 }
@@ -974,16 +979,62 @@ pub fn c24(tier: Tier) -> i32 {
         seqs.extend(next.iter().filter(|s| s.len() >= 2).cloned());
         frontier = next;
     }
-    let work: Vec<(bool, &Vec<usize>)> = seqs.iter().flat_map(|s| [(false, s), (true, s)]).filter(|(pre, s)| !(*pre && s.contains(&0))).collect();
-    work.par_iter().for_each(|(prepopulated, seq)| {
+    // thorough: plus every triple over the relationship / delete sub-alphabet on the two-node initial state
+    if depth == 2 {
+        let sub = [7usize, 5, 8, 9, 10];
+        for x in sub {
+            for y in sub {
+                for z in sub {
+                    seqs.push(vec![x, y, z]);
+                }
+            }
+        }
+    }
+    // initial states: 0 = empty, 1 = node a, 2 = nodes a and b (no relationship), 3 = a-[:R]->b
+    let work: Vec<(u8, &Vec<usize>)> = seqs
+        .iter()
+        .flat_map(|s| [(0u8, s), (1, s), (2, s), (3, s)])
+        .filter(|(init, s)| {
+            let creates_a = s.contains(&0);
+            let creates_b = s.contains(&2);
+            match init {
+                0 => true,
+                1 => !creates_a,
+                _ => !creates_a && !creates_b,
+            }
+        })
+        .collect();
+    work.par_iter().for_each(|(init, seq)| {
         rep.add_states(1);
         rep.add_traces(2);
         rep.add_transitions(2 * seq.len() as u64);
+        let prepopulated = &(*init > 0);
         let setup = |db: &QDb| {
-            if *prepopulated {
-                let _ = db.write("CREATE (:A {uid: 1})", &Params::new());
+            let p = Params::new();
+            if *init >= 1 {
+                let _ = db.write("CREATE (:A {uid: 1})", &p);
+            }
+            if *init >= 2 {
+                let _ = db.write("CREATE (:B {uid: 2})", &p);
+            }
+            if *init >= 3 {
+                let _ = db.write("MATCH (a:A), (b:B) CREATE (a)-[:R]->(b)", &p);
             }
         };
+        // which kinds of own writes does a later statement read? (cause tags for triage / known findings)
+        let mut causes: BTreeSet<String> = BTreeSet::new();
+        for j in 0..seq.len() {
+            for i in 0..j {
+                for w in alphabet[seq[i]].3 {
+                    // a relationship (or its deletion) is read either by matching a pattern or as "attached to a node being deleted"
+                    for r in alphabet[seq[j]].2 {
+                        if r == w || r.strip_suffix("_match") == Some(w) || r.strip_suffix("_attached") == Some(w) {
+                            causes.insert(format!("cause:reads_{r}_written_in_txn"));
+                        }
+                    }
+                }
+            }
+        }
         // reference: separate auto-commit statements
         let a = QDb::new();
         setup(&a);
@@ -1010,8 +1061,10 @@ pub fn c24(tier: Tier) -> i32 {
         });
         b.reopen();
         let got = read_model(&b);
-        let kinds_v: Vec<String> = std::iter::once(if *prepopulated { "prepopulated".to_string() } else { "empty".to_string() }).chain(seq.iter().map(|i| alphabet[*i].0.to_string())).collect();
-        let replay = json!({"engine":"update","prepopulated": prepopulated, "statements": seq.iter().map(|i| alphabet[*i].1).collect::<Vec<_>>()});
+        let _ = prepopulated;
+        let kinds_v: Vec<String> = std::iter::once(["empty", "node_a", "nodes_a_b", "a_R_b"][*init as usize].to_string()).chain(seq.iter().map(|i| alphabet[*i].0.to_string())).chain(causes.iter().cloned()).collect();
+        let init_text = ["empty", "(:A {uid:1})", "(:A {uid:1}), (:B {uid:2})", "(:A {uid:1})-[:R]->(:B {uid:2})"][*init as usize];
+        let replay = json!({"engine":"update","initial_state": init_text, "statements": seq.iter().map(|i| alphabet[*i].1).collect::<Vec<_>>()});
         match (r, want, got) {
             (Err(e), _, _) => {
                 rep.outcome("txn_failed");
